@@ -375,13 +375,9 @@ pub mod typechecker {
 
         use super::scope::ResolvedName;
 
-        impl TypeChecker {
-            /*@FN_FIND_ORDER@*/
-
-            /*@FN_CONTEXT_CHECK@*/
-
-            /*@FN_DETERMINE@*/
-        }
+        // the whole `impl TypeChecker` block of value_cycle.rs (so helper methods added by a
+        // refactoring are part of the unit)
+        /*@IMPL_TYPECHECKER@*/
 
         /*@STRUCT_REFGRAPH@*/
 
